@@ -30,6 +30,8 @@ EXTRA_START = [
     {"a": [1, 2], "1": {"a": 1}}, [[1, 2], {"1": 1}], {"-": [1], "a": {"-": 2}}, {"a": {"1": [True], "01": 2}},
     [1, [True, ["s"]]], {"a": 1, "b": 1.0, "c": True, "d": [1], "e": [True]}, [], {}, 1, "s",
     {"a": "str", "b": None}, ["x", "y", "z", "w", "v", "u", "t", "r", "q", "p", "o"],
+    # names / indices of which one is a string prefix of another ('a' vs 'ab', '1' vs '10'): move/copy between them
+    {"a": 1, "ab": {"a": 2}, "a/b": {"x": 3}}, [0, {"v": 1}, 2, 3, 4, 5, 6, 7, 8, 9, {"v": 10}],
 ]
 
 
